@@ -28,6 +28,8 @@ class Bits:
 
 def tables(ctx, rep):
     tabs = extract_all_layouts(ctx)
+    for n_, why_ in getattr(ctx, 'skipped_layouts', []):
+        rep.note('layout type %s is not one of the shipped layouts and is not a pure function of (key, modifiers, mode) - not judged (%s)' % (n_, why_))
     rep.floor('concrete KeyboardLayout impls', len(tabs), 10)
     rep.analysed['layouts'] = {n: {'fn': t.fn_path, 'path_classes': t.n_classes, 'cells': len(t.out), 'engine': t.engine_stats}
                                for n, t in tabs.items()}
